@@ -74,6 +74,14 @@ def run(ctx):
             pp.create_transformer_from_parameters(net, hb, rng.choice(mv[1:]), 25., 110., 20., 0.3, 10., 15., 0.04,
                                                   shift_degree=rng.choice([150, 30, -30]))
             pp.create_load(net, hb, 1.5, 0.4)
+        if rng.random() < 0.35 and mv:
+            # a purely conductive shunt (active power only) / a ward with constant-impedance active power only
+            if rng.random() < 0.6:
+                pp.create_shunt(net, rng.choice(mv), q_mvar=0., p_mw=rng.choice([0.3, 0.6]))
+            else:
+                pp.create_ward(net, rng.choice(mv), ps_mw=0., qs_mvar=0., pz_mw=rng.choice([0.3, 0.5]), qz_mvar=0.)
+            if rng.random() < 0.7 and len(net.shunt) > 1:
+                net.shunt = net.shunt[net.shunt.q_mvar == 0.]          # no susceptive shunt left
         twin_gens = gens and rng.random() < 0.5 and len(mv) >= 3
         if twin_gens:
             # two generators at one bus with tight reactive limits (both reach their limits together)
@@ -135,6 +143,8 @@ def run(ctx):
                                   (len(net.trafo3w) and ((net.trafo3w.shift_mv_degree.values != 0) | (net.trafo3w.shift_lv_degree.values != 0)).any()))
             if d and name == "init_flat" and shifted:
                 ctx.failure("init-flat-phase-shift", f"runpp({kw}): {d}", dict(case, alternative=opts))
+            elif d and name == "bfsw" and len(net.gen) and net.gen.bus[net.gen.in_service].duplicated().any():
+                ctx.failure("bfsw-two-gens-one-bus", f"runpp({kw}): {d}", dict(case, alternative=opts))
             elif d:
                 ctx.failure(f"differs:{name}", f"runpp({kw}): {d} (voltage angles {angles})", dict(case, alternative=opts))
             # hypothesis of the sweep theorem on the implementation: nodal balance of the bfsw result
